@@ -32,9 +32,13 @@ Theorem C44_same_labels_same_shard : forall (H : str -> N) by_ set n ls1 ls2,
 Proof. exact same_projection_same_shard. Qed.
 Print Assumptions C44_same_labels_same_shard.
 
-(* the same through the predicate evaluated on the implementation's match results *)
+(* the same through the predicate evaluated on the implementation's match results: both entry
+   points of the matcher (MatchesZLabels, used by the proxy, and MatchesLabels, used by the
+   shard-aware stores) are the model's function, so each puts the series on exactly one shard
+   and both on the same one *)
 Theorem C44_partition_pred : forall (H : str -> N) by_ set n ls tbl, (0 < n)%N ->
-  pred_ok (CShard by_ set n ls tbl (map (fun i => matches H by_ set n (N.of_nat i) ls) (seq 0 (N.to_nat n)))) = true.
+  let m := map (fun i => matches H by_ set n (N.of_nat i) ls) (seq 0 (N.to_nat n)) in
+  pred_ok (CShard by_ set n ls tbl m m) = true.
 Proof. exact shard_pred. Qed.
 Print Assumptions C44_partition_pred.
 
